@@ -6,7 +6,8 @@ Executable model of the scalar views of the Emboss C++ runtime:
 `FloatView` (`emboss_prelude.h`) and `EnumView` (`emboss_enum_view.h`).
 
 The model mirrors what the code does, quirks included (e.g. `EnumView::Read` is a plain
-`static_cast`, which zero-extends a field narrower than the enum's underlying type).
+`static_cast`, which zero-extends a field narrower than the enum's underlying type, and
+`EnumView::CouldWriteValue` compares the *unsigned* image of the value with `2^kBits`).
 
 Shared module (owner: C02/C03).  Imports only `Emboss.Model.Bits`.
 -/
@@ -103,12 +104,12 @@ namespace BitBlock
 /-- `LeastWidthInteger<c>::Unsigned`. -/
 def W (b : BitBlock) : Nat := leastWidth b.c
 
-/-- `buffer_.Ok() && buffer_.SizeInBytes() * 8 == kBufferSizeInBits`; `NullByteOrderer`
-reports `SizeInBytes() == 1` for every non-null buffer. -/
+/-- `buffer_.Ok() && buffer_.SizeInBytes() * 8 == kBufferSizeInBits`.  Every byte orderer
+forwards `SizeInBytes()` to the underlying buffer (`NullByteOrderer` too, since the repair
+`fix: … one-byte field without byte order report its real storage size`; before it
+answered 1 for every non-null buffer). -/
 def ok (b : BitBlock) : Bool :=
-  match b.order with
-  | .null => b.c == 8
-  | _ => b.bytes.length * 8 == b.c
+  b.bytes.length * 8 == b.c
 
 /-- `ReadUInt()`.  `none`: `EMBOSS_CHECK_EQ(SizeInBytes() * 8, kBits)` of
 `ContiguousBuffer::Read…UInt` fails. -/
@@ -374,7 +375,10 @@ def couldWrite (v : View) (t : IntT) (x : Int) : Bool :=
   | .float => true
   | .enum uw signed =>
     let BW := v.buf.W
-    let bv := ofInt BW x
+    -- `ToBitViewValue(value)`: through the unsigned counterpart of the underlying type,
+    -- then to `BitViewType::ValueType` (zero-extension or truncation)
+    let bv := wrap BW (ofInt uw x)
+    -- `static_cast<ValueType>(ToBitViewValue(value))`
     let back : Int := if signed then toSigned uw bv else (wrap uw bv : Nat)
     decide (x = back) &&
       (decide (v.kBits = BW) ||
@@ -388,7 +392,7 @@ def encode (v : View) (x : Int) : Nat :=
   | .bcd => binaryToBcd v.kBits (ofInt v.VW x)
   | .flag => if x ≠ 0 then 1 else 0
   | .float => ofInt v.kBits x
-  | .enum _ _ => ofInt v.buf.W x
+  | .enum uw _ => wrap v.buf.W (ofInt uw x)
 
 /-- Result of `TryToWrite`. -/
 inductive WriteResult
